@@ -238,6 +238,8 @@ type bopfn func(Value, Value) Value
 // zero is a short circuit value e.g. false for and
 func commutative(nary *Nary, bop bopfn, zero, identity Value) []Expr {
 	exprs := nary.Exprs
+	// and/or do not evaluate the operands after the short circuit value
+	shortCircuit := nary.Tok == tok.And || nary.Tok == tok.Or
 	first := -1
 	dst := 0
 	for src := 0; src < len(exprs); src++ {
@@ -251,7 +253,8 @@ func commutative(nary *Nary, bop bopfn, zero, identity Value) []Expr {
 			exprs[dst] = e
 			dst++
 		} else {
-			if c.Val.Equal(zero) {
+			if c.Val.Equal(zero) && discardable(exprs[:dst]) &&
+				(shortCircuit || discardable(exprs[src+1:])) {
 				exprs[0] = c
 				return exprs[:1]
 			}
@@ -280,6 +283,45 @@ func commutative(nary *Nary, bop bopfn, zero, identity Value) []Expr {
 		dst++
 	}
 	return exprs[:dst]
+}
+
+// discardable returns true if the expressions only read variables and constants
+// so not evaluating them can only lose an exception, not a side effect.
+// Calls, assignments, increments, and member access (getters, rules)
+// are not discardable.
+func discardable(exprs []Expr) bool {
+	for _, e := range exprs {
+		switch e := e.(type) {
+		case *Constant, *Ident:
+		case *Unary:
+			if e.Tok.IsIncDec() || !discardable([]Expr{e.E}) {
+				return false
+			}
+		case *Binary:
+			if e.Tok.IsAssign() || !discardable([]Expr{e.Lhs, e.Rhs}) {
+				return false
+			}
+		case *Trinary:
+			if !discardable([]Expr{e.Cond, e.T, e.F}) {
+				return false
+			}
+		case *Nary:
+			if !discardable(e.Exprs) {
+				return false
+			}
+		case *In:
+			if !discardable([]Expr{e.E}) || !discardable(e.Exprs) {
+				return false
+			}
+		case *InRange:
+			if !discardable([]Expr{e.E, e.Org, e.End}) {
+				return false
+			}
+		default:
+			return false
+		}
+	}
+	return true
 }
 
 func nestedNary(e Expr, t tok.Token) (*Nary, bool) {
@@ -421,11 +463,12 @@ func (f Folder) foldMul(exprs []Expr) []Expr {
 	mul := One
 	div := One
 	dst := 0
-	for _, e := range exprs {
+	for i, e := range exprs {
 		if ud := unaryDivConst(e); ud != nil {
 			div = OpMul(div, ud)
 		} else if c, ok := e.(*Constant); ok {
-			if c.Val.Equal(Zero) {
+			if c.Val.Equal(Zero) &&
+				discardable(exprs[:dst]) && discardable(exprs[i+1:]) {
 				exprs[0] = c
 				return exprs[:1]
 			}
